@@ -70,6 +70,10 @@ EXPLANATION += (
     ' Round 7: an output file that is appended to is first created or replaced by the stage (R-FRESH/output-created-afresh).'
 )
 
+EXPLANATION += (
+    ' Round 8: finalisers release the scratch directory they own on every normally returning path (R-PAIR/tempdir/finaliser).'
+)
+
 RULE_TEXT = (
     "one obligation per (CLI runner, input key), per write effect root, "
     "per temp acquisition and exit-set mode, per listing, per worker "
@@ -935,6 +939,49 @@ def check_finalisers_release(ctx):
                    f'self.{attr} (an exception on the way is caught and '
                    'dropped): the scratch directory stays behind',
                    witness=cfg.fmt_path(p) if p else None)
-    if n < 2:
-        raise AnalysisError(f'only {n} finalisers that release a scratch '
+    # every class that takes a scratch directory into an attribute has
+    # such a finaliser
+    owners = 0
+    for ci in db.iter_classes() if hasattr(db, 'iter_classes') else []:
+        pass
+    seen_cls = {}
+    for fi in db.iter_functions():
+        if fi.cls is None or fi.module.short.startswith('gpu_utils'):
+            continue
+        for st in ast.walk(fi.node):
+            if isinstance(st, ast.Assign) and len(st.targets) == 1 \
+                    and isinstance(st.targets[0], ast.Attribute) \
+                    and isinstance(st.targets[0].value, ast.Name) \
+                    and st.targets[0].value.id == 'self' and any(
+                        isinstance(c, ast.Call) and (
+                            (isinstance(c.func, ast.Attribute)
+                             and c.func.attr == 'mkdtemp')
+                            or (isinstance(c.func, ast.Name)
+                                and c.func.id == 'mkdtemp'))
+                        for c in ast.walk(st.value)):
+                seen_cls.setdefault(fi.cls.qual, (fi.cls, set()))[1].add(
+                    st.targets[0].attr)
+    for q, (ci, attrs) in sorted(seen_cls.items()):
+        d = db.find_method(ci, '__del__')
+        for attr in sorted(attrs):
+            owners += 1
+            has = False
+            if d is not None:
+                for c in ast.walk(d.node):
+                    if isinstance(c, ast.Call) and c.args and isinstance(
+                            c.args[0], ast.Attribute) \
+                            and c.args[0].attr == attr and isinstance(
+                                c.func, (ast.Name, ast.Attribute)) and (
+                                    getattr(c.func, 'id', None)
+                                    or getattr(c.func, 'attr', None)) in (
+                                        '_clean_up', 'rmtree'):
+                        has = True
+            ctx.ob(rule, f'{q}:owns:self.{attr}', ci.loc()
+                   if hasattr(ci, 'loc') else None, has,
+                   f'{ci.name} releases self.{attr} in its finaliser'
+                   if has else
+                   f'{ci.name} takes a scratch directory into self.{attr} '
+                   'but its finaliser does not release it')
+    if owners < 2:
+        raise AnalysisError(f'only {owners} classes that own a scratch '
                             'directory found')
